@@ -9,8 +9,15 @@ T -- for lossy configurations enumerated by TLC (CodecConfig.tla) the real encod
 unquantised coefficients + matrix values (transform_and_slice_picture, observation wrapper), the chosen qindex and
 length fields (encoder output description) and the slice's size in the serialised stream (bytes consumed by the
 validator's hq_slice / ld_slice, observation wrapper) are recorded; TLC evaluates the C14 clauses on every line.
+LD boundary pictures -- spec/RateControlLD.tla: TLC enumerates low-delay pictures whose mean slice size lies around
+every power of two (equal and unequal slices, i.e. 2^j / 2^j+1 byte slices mixed, where the width of the
+slice_y_length field changes) with per-slice contents constructed in TLA+ to fill the slice's own budget
+8*bytes - 7 - intlog2(8*bytes - 7) to the last bit / one bit less / one bit more; every picture is coded by the real
+make_transform_data_ld_lossy and judged per slice by RateControlTrace.tla; real pictures of LD configurations are
+also run with picture_bytes values of that enumeration (boundary twins, end to end incl. measured slice sizes).
 Alarm (R1): C14.Fits, C14.NotBelowMinimum, C14.Smallest, C14.LengthFields8Bit, C14.LDSliceSizeExact,
-C14.HQTotalWithinScaler.  S.* clauses (scaler choice, per-slice budget split, LD length field) are logged only.
+C14.HQTotalWithinScaler, C14.CodedWhenEverySliceHasAByte (the encoder refuses a low-delay picture although every
+slice has a byte, so that a smallest fitting index exists).  S.* clauses (scaler choice, per-slice budget split, LD length field) are logged only.
 """
 import json
 import random
@@ -42,6 +49,43 @@ def fit_event(arg):
     sets = [ComponentCoeffs(list(s["cs"]), list(s["ms"])) for s in inst["sets"]]
     q, out = quantize_to_fit(inst["target"], sets, inst["align"], inst["qmin"])
     return {"tid": tid, "ev": "fit", "sets": inst["sets"], "target": inst["target"], "align": inst["align"], "qmin": inst["qmin"], "q": int(q), "out": [list(o) for o in out], "spec_q": spec_q}
+
+
+# ------------------------------------------------------------------------------ LD boundary pictures (RateControlLD)
+def ld_cfg(ctx):
+    consts = ctx.pick(
+        {"Grids": "GridsQuick", "Pows": [1, 2, 4, 8, 16, 32], "QMins": [0, 3], "Ups": [0, 6], "Fills": ["exact", "spare", "over"]},
+        {"Grids": "GridsThorough", "Pows": [1, 2, 4, 8, 16, 32, 64], "QMins": [0, 3, 20], "Ups": [0, 2, 6], "Fills": ["exact", "spare", "over"]},
+    )
+    st = lambda xs: "{" + ", ".join(json.dumps(x) for x in xs) + "}"
+    text = "SPECIFICATION Spec\nCONSTANTS\n  Grids <- %s\n  Pows = %s\n  QMins = %s\n  Ups = %s\n  Fills = %s\nINVARIANT Constructed\nINVARIANT Sizes\nCHECK_DEADLOCK FALSE\n" % (
+        consts["Grids"], st(consts["Pows"]), st(consts["QMins"]), st(consts["Ups"]), st(consts["Fills"]))
+    return text, consts
+
+
+def ld_event(arg):
+    """One picture of RateControlLD.tla coded by the real make_transform_data_ld_lossy (concretise: the spec's
+    per-slice coefficient / matrix sequences -> SliceCoeffs; project: qindex, slice_y_length, quantised blocks)."""
+    tid, inst = arg
+    from vc2_conformance.encoder.pictures import make_transform_data_ld_lossy, ComponentCoeffs, SliceCoeffs
+    from vc2_conformance.encoder.exceptions import InsufficientLDPictureBytesError
+
+    i = inst["inst"]
+    sx, sy = i["sx"], i["sy"]
+    sl = [s["c"] for s in inst["slices"]]
+    coeffs = [[SliceCoeffs(ComponentCoeffs(list(sl[y * sx + x]["y"]), list(sl[y * sx + x]["my"])), ComponentCoeffs(list(sl[y * sx + x]["c1"]), list(sl[y * sx + x]["mc1"])), ComponentCoeffs(list(sl[y * sx + x]["c2"]), list(sl[y * sx + x]["mc2"]))) for x in range(sx)] for y in range(sy)]
+    base = {"tid": tid, "ev": "picture", "profile": "ld", "pb": inst["pb"], "qmin": i["qmin"], "minscaler": 1, "scaler": 0, "ser": False, "total": 0, "pic": 0, "nsl": sx * sy}
+    try:
+        td = make_transform_data_ld_lossy(inst["pb"], coeffs, i["qmin"])
+    except InsufficientLDPictureBytesError:
+        return dict(base, refused=True, slices=[], spec_q=[s["q"] for s in inst["slices"]], got_out=[])
+    out = []
+    got = []
+    for k, d in enumerate(td["ld_slices"]):
+        c = sl[k]
+        out.append({"y": list(c["y"]), "my": list(c["my"]), "c1": list(c["c1"]), "mc1": list(c["mc1"]), "c2": list(c["c2"]), "mc2": list(c["mc2"]), "q": int(d["qindex"]), "bytes": 0, "oos": bool(int(d["qindex"]) > MAXQ), "ly": int(d["slice_y_length"])})
+        got.append([list(d["y_transform"]), list(d["c_transform"])])
+    return dict(base, refused=False, slices=out, spec_q=[s["q"] for s in inst["slices"]], got_out=got)
 
 
 # ------------------------------------------------------------------------------ T: recorded pictures
@@ -108,7 +152,13 @@ def record_pictures(job):
     del _SIZES[:]
     try:
         seq = make_sequence(features, pictures, **kwargs)
-    except Exception as e:  # noqa: not a C14 verdict (C03 judges whether the encoder produces a stream)
+    except Exception as e:  # noqa: not a C14 verdict (C03 judges whether the encoder produces a stream) ...
+        from vc2_conformance.encoder.exceptions import InsufficientLDPictureBytesError
+
+        if cfg["mode"] == "ld_lossy" and isinstance(e, InsufficientLDPictureBytesError):
+            # ... except the refusal of a low-delay budget, which the trace spec judges (legitimate below one byte per slice)
+            rec = {"tid": job["tid"], "ev": "picture", "profile": "ld", "pb": outcome["picture_bytes"], "qmin": cfg["minq"], "minscaler": cfg["minscaler"], "scaler": 0, "ser": False, "slices": [], "total": 0, "pic": 0, "refused": True, "nsl": cfg["sx"] * cfg["sy"]}
+            return {"records": [rec], "status": "ld-refused:" + common.exc_signature(e)}
         return {"records": [], "status": "encode-failed:" + common.exc_signature(e)}
     coeffs = list(_COEFFS)
     # the encoder's output description: slices per picture, in order
@@ -165,7 +215,7 @@ def record_pictures(job):
         records.append(
             {
                 "tid": job["tid"], "ev": "picture", "profile": "hq" if hq else "ld", "pb": outcome["picture_bytes"], "qmin": cfg["minq"], "minscaler": cfg["minscaler"],
-                "scaler": int(scalers[i]) if hq else 0, "ser": ser, "slices": sl, "total": sum(sizes[i * n : (i + 1) * n]), "pic": i,
+                "scaler": int(scalers[i]) if hq else 0, "ser": ser, "slices": sl, "total": sum(sizes[i * n : (i + 1) * n]), "pic": i, "refused": False, "nsl": n,
             }
         )
     return {"records": records, "status": status}
@@ -225,7 +275,13 @@ def run(ctx):
     # ---- S + G: the search as a state machine
     import os
 
+    import concurrent.futures
+
     text, consts = rate_cfg(ctx)
+    ld_text, ld_consts = ld_cfg(ctx)
+    tlc.scratch_root()
+    ld_pool = concurrent.futures.ThreadPoolExecutor(max_workers=1)
+    ld_future = ld_pool.submit(tlc.run, "RateControlLD", ld_text, coverage=True, timeout=3000, workers=8)
     fcache = (os.environ.get("VERIF_CODEC_CACHE") or "") + ".fits.json"  # mutation-sanity knob only
     if os.environ.get("VERIF_CODEC_CACHE") and os.path.exists(fcache):
         with open(fcache) as f:
@@ -257,6 +313,37 @@ def run(ctx):
     fit_records = [r for r in fit_records if r["q"] != r["spec_q"]] + agreeing
     for r in fit_records:
         del r["spec_q"]
+    # ---- LD boundary pictures: contents constructed by TLC to fill each slice's own budget, coded by the real
+    # make_transform_data_ld_lossy
+    res_ld = ld_future.result()
+    ld_pool.shutdown()
+    for a in ("CodeSlice", "Done"):
+        if res_ld.coverage.get(a, [0, 0])[0] == 0:
+            raise RuntimeError("RateControlLD: action %s never taken" % a)
+    ctx.add_tlc(res_ld, "RateControlLD exhaustive (low-delay pictures around power-of-two slice sizes, constructed exact fills)", ld_consts)
+    ldi = cc.printed_json(res_ld, "LDI")
+    if len(ldi) != res_ld.coverage["Done"][0]:
+        raise RuntimeError("RateControlLD printed %d pictures, Done was taken %d times" % (len(ldi), res_ld.coverage["Done"][0]))
+    ldi.sort(key=lambda x: json.dumps(x["inst"], sort_keys=True))
+    ld_records = common.pmap(ld_event, [(50000 + i, x) for i, x in enumerate(ldi)])
+    ld_stats = {"pictures": len(ldi), "slices": 0, "unequal_pictures": 0, "pictures_mixing_pow2_and_pow2_plus_1_byte_slices": 0, "exact_fill_slices": 0, "exact_fill_slices_above_minimum": 0, "exact_fill_small_slices_at_width_change": 0, "refused": 0, "index_differs_from_spec": 0}
+    for x, r in zip(ldi, ld_records):
+        sbs = sorted(set(sl["sb"] for sl in x["slices"]))
+        ld_stats["slices"] += len(x["slices"])
+        ld_stats["unequal_pictures"] += len(sbs) > 1
+        mixed = len(sbs) == 2 and sbs[0] & (sbs[0] - 1) == 0
+        ld_stats["pictures_mixing_pow2_and_pow2_plus_1_byte_slices"] += mixed
+        ld_stats["refused"] += r["refused"]
+        if x["inst"]["fill"] == "exact":
+            for sl in x["slices"]:
+                if sl["c"]["built"]:
+                    ld_stats["exact_fill_slices"] += 1
+                    ld_stats["exact_fill_slices_above_minimum"] += sl["q"] > x["inst"]["qmin"]
+                    ld_stats["exact_fill_small_slices_at_width_change"] += bool(mixed and sl["sb"] == sbs[0])
+        ld_stats["index_differs_from_spec"] += r["refused"] or [sl["q"] for sl in r["slices"]] != r["spec_q"]
+        del r["spec_q"], r["got_out"]
+    if min(ld_stats["exact_fill_slices_above_minimum"], ld_stats["exact_fill_small_slices_at_width_change"]) == 0:
+        raise RuntimeError("vacuous: RateControlLD produced no exact-fill slice above the minimum / at a length-field width change: %s" % ld_stats)
     # ---- T: real pictures of lossy configurations
     cfgs, info = cc.configurations(ctx, only=lossy)
     all_lossy = list(cfgs)
@@ -276,7 +363,21 @@ def run(ctx):
     if len(twins) > tw_limit:
         step = len(twins) / float(tw_limit)
         twins = [twins[int(i * step)] for i in range(tw_limit)]
-    cfgs = cfgs + twins
+    # low-delay boundary twins: real pictures, end to end (sizes measured on the stream), with picture_bytes taken from
+    # the RateControlLD enumeration for the configuration's slice grid
+    pbs = {}
+    for x in ldi:
+        pbs.setdefault((x["inst"]["sx"], x["inst"]["sy"]), set()).add(x["pb"])
+    ld_twins = []
+    rnd_t = random.Random(ctx.seed + 14)
+    cands = [c for c in all_lossy if c["cfg"]["mode"] == "ld_lossy" and (c["cfg"]["sx"], c["cfg"]["sy"]) in pbs]
+    rnd_t.shuffle(cands)
+    for c in cands[: ctx.pick(120, 600)]:
+        pb = rnd_t.choice(sorted(pbs[(c["cfg"]["sx"], c["cfg"]["sy"])]))
+        ld_twins.append({"cfg": dict(c["cfg"], pb="ld-boundary"), "outcome": dict(c["outcome"], picture_bytes=pb)})
+    if not ld_twins:
+        raise RuntimeError("no low-delay configuration shares a slice grid with RateControlLD")
+    cfgs = cfgs + twins + ld_twins
     jobs = [{"tid": 100000 + i, "cfg": c["cfg"], "outcome": c["outcome"], "seed": ctx.seed * 1000003 + i, "max_pictures": ctx.pick(2, 4)} for i, c in enumerate(cfgs)]
     results = common.pmap(record_pictures, jobs)
     pic_records = []
@@ -287,9 +388,9 @@ def run(ctx):
         for rec in r["records"]:
             pic_records.append(rec)
             owner.append(j)
-    records = fit_records + pic_records
+    records = fit_records + ld_records + pic_records
     bad, applied, tres = judge(records)
-    ctx.add_tlc(tres, "trace validation (RateControlTrace) of %d quantize_to_fit calls and %d coded pictures" % (len(fit_records), len(pic_records)))
+    ctx.add_tlc(tres, "trace validation (RateControlTrace) of %d quantize_to_fit calls, %d constructed low-delay pictures and %d coded pictures" % (len(fit_records), len(ld_records), len(pic_records)))
     if not applied.get("fit") or not applied.get("hq") or not applied.get("ld"):
         raise RuntimeError("vacuous: %s" % applied)
     dis = {}
@@ -300,8 +401,15 @@ def run(ctx):
             continue
         if rec["ev"] == "fit":
             ctx.violation("C14|%s|quantize_to_fit" % b["clause"].split(".", 1)[1], "%s: quantize_to_fit(%s, %s, align=%s, qmin=%s) -> %s" % (b["clause"], rec["target"], rec["sets"], rec["align"], rec["qmin"], rec["q"]), {"fit": {k: rec[k] for k in ("sets", "target", "align", "qmin")}})
+        elif b["line"] - 1 < len(fit_records) + len(ld_records):
+            x = ldi[b["line"] - 1 - len(fit_records)]
+            ctx.violation(
+                "C14|%s|ld" % b["clause"].split(".", 1)[1],
+                "%s on the constructed low-delay picture %s (picture_bytes=%s, slice bytes %s, budgets %s bits): make_transform_data_ld_lossy %s, the smallest fitting indices are %s" % (b["clause"], json.dumps(x["inst"], sort_keys=True), x["pb"], [sl["sb"] for sl in x["slices"]], [sl["budget"] for sl in x["slices"]], "raised InsufficientLDPictureBytesError" if rec["refused"] else "chose q=%s" % [sl["q"] for sl in rec["slices"]], [sl["q"] for sl in x["slices"]]),
+                {"ldi": x},
+            )
         else:
-            j = owner[b["line"] - 1 - len(fit_records)]
+            j = owner[b["line"] - 1 - len(fit_records) - len(ld_records)]
             ctx.violation(
                 "C14|%s|%s" % (b["clause"].split(".", 1)[1], rec["profile"]),
                 "%s on picture %d of cfg %s: picture_bytes=%s scaler=%s total=%s q=%s sizes=%s" % (b["clause"], rec["pic"], json.dumps(jobs[j]["cfg"], sort_keys=True), rec["pb"], rec["scaler"], rec["total"], [s["q"] for s in rec["slices"]], [s["bytes"] for s in rec["slices"]]),
@@ -332,6 +440,8 @@ def run(ctx):
             "quantize_to_fit_spec_q_differs": spec_q_dis,
             "lossy_configurations": len(cfgs),
             "boundary_twins": len(twins),
+            "ld_boundary_twins": len(ld_twins),
+            "ld_boundary_pictures": ld_stats,
             "coded_pictures": len(pic_records),
             "run_status": status,
             "slices_by_choice": qhist,
@@ -355,6 +465,11 @@ def run(ctx):
 
 
 def replay(case):
+    if "ldi" in case:
+        rec = ld_event((1, case["ldi"]))
+        del rec["spec_q"], rec["got_out"]
+        bad, _, _ = judge([rec])
+        return {"violations": [b for b in bad if b["alarm"]], "record": {k: v for k, v in rec.items() if k != "slices"}, "q": [s["q"] for s in rec["slices"]]}
     if "fit" in case:
         rec = fit_event((1, case["fit"], -1))
         del rec["spec_q"]
